@@ -184,6 +184,32 @@ Theorem nested_base_url : forall f W cwd b anc override parent h tr l tr',
 Proof. exact nested_base_url_lemma. Qed.
 Print Assumptions nested_base_url.
 
+(* end to end, at EVERY depth (induction over the nesting fuel and the statements): in the rule tree a parse returns,
+   every loaded @import carries the URL obtained by joining its href with the URL of the sheet that contains it --
+   the top sheet's href (or the cwd URL) for the first level, that joined URL for the next, and so on *)
+Theorem nested_base_url_deep : forall fuel W cwd base override sr rules tr,
+  parse_string fuel W cwd base override sr = Normal (rules, tr) -> based (base_of cwd base) rules.
+Proof. exact nested_base_url_deep_lemma. Qed.
+Print Assumptions nested_base_url_deep.
+
+(* three levels in sub-directories: top -> s/a.css -> t/b.css -> c.css (missing) *)
+Definition W_deep : world :=
+  {| fetch := fun _ u => if eqs u (s "http://h/d/s/a.css") then OContent None (CText 1)
+                         else if eqs u (s "http://h/d/s/t/b.css") then OContent None (CText 2) else ONothing;
+     detect := fun _ => (Some (s "utf-8"), false);
+     decode := fun _ _ => DecRaise E_LookupError;
+     parse := fun t => if N.eqb t 1 then {| s_charset := None; s_items := [IImport (rel (s "t/b.css")) (s "all")] |}
+                       else {| s_charset := None; s_items := [IImport (rel (s "c.css")) (s "all"); IStyle (s "b") (s "v")] |};
+     enc_norm := fun _ => None |}.
+
+Example nested_base_url_deep_nonvacuous :
+  parse_string 5 W_deep u_top (Some u_top) None {| s_charset := None; s_items := [IImport (rel (s "s/a.css")) (s "all")] |} =
+  Normal ([RImport (s "s/a.css") (s "all") true (Some (s "http://h/d/s/a.css"))
+             [RImport (s "t/b.css") (s "all") true (Some (s "http://h/d/s/t/b.css"))
+                [RImport (s "c.css") (s "all") false None []; RStyle (s "b") (s "v")]]],
+          rev [s "http://h/d/s/a.css"; s "http://h/d/s/t/b.css"; s "http://h/d/s/t/c.css"; s "http://h/d/s/t/c.css"]).
+Proof. vm_compute. reflexivity. Qed.
+
 (* ---- urljoin *)
 Theorem urljoin_absolute : forall a b pa pb,
   parsed a = Some pa -> parsed b = Some pb ->
